@@ -184,6 +184,15 @@ def vwrite(repo, templates):
                              (".CouldWriteValue(", "the destination's range")):
             if needle not in c:
                 res.add(f"{name}|CouldWriteValue|{what}", f"virtual CouldWriteValue no longer tests {what}", TEMPLATES, templates[name]["line"])
+        # presence: a conditional virtual field (`if c: let v = x - 40`) that does not exist must refuse writes, and the test
+        # must come before the destination is consulted
+        res.instances += 1
+        pm = re.search(r"if\s*\(\s*!\s*view_\.has_V_name\s*\(\)\.ValueOr\(false\)\s*\)\s*return\s+false", c)
+        fw = c.find(".CouldWriteValue(")
+        if not pm or (fw >= 0 and pm.start() > fw):
+            res.add(f"{name}|CouldWriteValue|presence", "virtual CouldWriteValue does not start with `if (!view_.has_<name>().ValueOr("
+                    "false)) return false`: a write-through virtual field under a false condition accepts writes and changes the "
+                    "destination field although it does not exist", TEMPLATES, templates[name]["line"])
     u = body_of("UncheckedWrite")
     if u is not None and "V_transform" not in u:
         res.add(f"{name}|UncheckedWrite", "virtual UncheckedWrite does not apply the transform", TEMPLATES, templates[name]["line"])
